@@ -106,6 +106,11 @@ def make_original(spec, kind, i):
         fs = fixed_settings(s, i)
         h = table.handler(s)
         hs = (h.using(**fs) if fs else h).hash("pw")
+        first = next(n for n in schemes if table.handler(n).identify(hs))
+        if first != s:
+            # same-shaped formats in one context (nthash / hex_md5): the context attributes the hash to the earlier one (C04);
+            # an account of this context carries a hash of the scheme that claims it
+            hs = table.handler(first).hash("pw")
         return hs, hs
     m = "!" if kind.startswith("bang") else "*"
     if kind.endswith("bare"):
@@ -216,6 +221,7 @@ def apply_ops(rec, hist, soft=False):
     enabled = True
     nontrivial = False
     nops = 0
+    marker_orig = False
     for i, op in enumerate(hist["ops"]):
         sub = {"spec": spec, "ops": hist["ops"][: i + 1]}
         nops += 1
@@ -226,6 +232,8 @@ def apply_ops(rec, hist, soft=False):
                 return nontrivial
             if enabled:
                 embedded = cur if dis == "unix_disabled" else None
+                if dis == "unix_disabled" and cur[:1] in MARKERS:
+                    marker_orig = True  # the recorded finding: an original that itself begins with a marker character (mysql41 '*...')
             cur, enabled = r, False
         elif op[0] == "enable":
             st, r = call(ctx.enable, cur)
@@ -234,6 +242,9 @@ def apply_ops(rec, hist, soft=False):
                     rec.fail(f"C18/machine/enable-normal/{dis}", "enable() of an enabled hash does not return it unchanged", "history", sub, repr(r), cur, soft=soft)
                     return nontrivial
             elif embedded is not None:
+                if marker_orig and (st == "err" or r != embedded):
+                    rec.fail(f"C18/enable-not-original/{dis}/marker-prefixed-original", "enable() does not restore a marker-prefixed original (operation sequence)", "history", sub, repr(r), embedded, soft=soft)
+                    return nontrivial
                 if st == "err" or r != embedded:
                     rec.fail(f"C18/machine/enable-not-original/{dis}", "enable() does not restore the original hash after a sequence of operations", "history", sub, repr(r), embedded, soft=soft)
                     return nontrivial
@@ -247,11 +258,17 @@ def apply_ops(rec, hist, soft=False):
             x = ["pw", "", cur, "wrong", cur[1:]][op[1] % 5]
             st, r = call(ctx.verify, x, cur)
             want = enabled and x == "pw"
+            if marker_orig and not enabled and (st == "err" or r is not want):
+                rec.fail(f"C18/still-enabled/{dis}/marker-prefixed-original", "a disabled marker-prefixed original still verifies (operation sequence)", "history", sub, repr(r), want, soft=soft)
+                return nontrivial
             if st == "err" or r is not want:
                 rec.fail(f"C18/machine/verify/{dis}", f"verify() is {r!r} for an account that is {'enabled' if enabled else 'disabled'}", "history", sub, repr(r), want, soft=soft)
                 return nontrivial
         elif op[0] == "is_enabled":
             st, r = call(ctx.is_enabled, cur)
+            if marker_orig and not enabled and (st == "err" or r is not enabled):
+                rec.fail(f"C18/still-enabled/{dis}/marker-prefixed-original", "is_enabled() is True for a disabled marker-prefixed original (operation sequence)", "history", sub, repr(r), enabled, soft=soft)
+                return nontrivial
             if st == "err" or r is not enabled:
                 rec.fail(f"C18/machine/is_enabled/{dis}", "is_enabled() disagrees with the model", "history", sub, repr(r), enabled, soft=soft)
                 return nontrivial
